@@ -764,3 +764,65 @@ Proof. unfold gnfa_validate. rewrite first_bad_ok. apply gnfa_checks_ok_iff. Qed
 (* ------------------------------------------------------------------ every checker only raises documented kinds *)
 Theorem validate_only_invalid cs e : first_bad cs = Err e -> exists k, e = Invalid k.
 Proof. intro H. destruct (first_bad_err _ _ H) as [k [E _]]. exists k. exact E. Qed.
+
+(* ------------------------------------------------------------------ agreement with the PDA development of C02 *)
+(* valid_pda of Spec/PDA.v (hypothesis of the C02 theorems) = duplicate-free keys + the NPDA constructor accepts *)
+Theorem valid_pda_agrees m : valid_pda m = true <-> keys_ok m = true /\ npda_validate m 2 = Ok tt.
+Proof.
+  rewrite npda_validate_iff_wf. unfold valid_pda. repeat rewrite andb_true_iff. rewrite forallb_forall.
+  split.
+  - intros [[[[K R] I] Z] F]. split; [exact K|]. constructor.
+    + intros q row a tops Hrow Hat. specialize (R (q, row) Hrow). unfold prow_syms_ok in R. simpl in R.
+      rewrite forallb_forall in R. specialize (R (Some a, tops) Hat). simpl in R. apply andb_true_iff in R.
+      apply memb_In. tauto.
+    + intros q row a tops Z0 Hrow Hat HZ. specialize (R (q, row) Hrow). unfold prow_syms_ok in R. simpl in R.
+      rewrite forallb_forall in R. specialize (R (a, tops) Hat). simpl in R. apply andb_true_iff in R.
+      destruct R as [_ R]. rewrite forallb_forall in R. apply in_map_iff in HZ. destruct HZ as [t [E Ht]].
+      subst Z0. apply memb_In. apply R. exact Ht.
+    + apply memb_In. exact I.
+    + apply memb_In. exact Z.
+    + apply subsetb_incl. exact F.
+    + auto.
+  - intros [K [H1 H2 H3 H4 H5 _]]. repeat split; try assumption.
+    + intros [q row] Hrow. simpl. unfold prow_syms_ok. apply forallb_forall. intros [a tops] Hat. simpl.
+      apply andb_true_iff. split.
+      * destruct a as [a|]; [|reflexivity]. apply memb_In. eapply H1; eauto.
+      * apply forallb_forall. intros t Ht. apply memb_In. eapply H2; eauto. apply in_map. exact Ht.
+    + apply memb_In. exact H3.
+    + apply memb_In. exact H4.
+    + apply subsetb_incl. exact H5.
+Qed.
+
+(* the DPDA checker of Model/PDA.v (used by C02) is this checker with a valid acceptance mode *)
+Definition to_res (c : check) : res unit := guard (snd c) (Invalid (fst c)).
+
+Lemma first_err_map cs : first_err (map to_res cs) = first_bad cs.
+Proof.
+  induction cs as [|[k b] r IH]; simpl; [reflexivity|].
+  unfold to_res at 1. simpl. destruct b; simpl; [exact IH|reflexivity].
+Qed.
+
+Lemma map_flat_map {A B C} (g : B -> C) (f : A -> list B) l :
+  map g (flat_map f l) = flat_map (fun x => map g (f x)) l.
+Proof. induction l as [|x r IH]; simpl; [reflexivity|]. rewrite map_app, IH. reflexivity. Qed.
+
+Lemma first_err_app_ok l : first_err (l ++ [Ok tt]) = first_err l.
+Proof. induction l as [|[u|e] r IH]; simpl; [reflexivity|exact IH|reflexivity]. Qed.
+
+Theorem dpda_validate_raw_agrees m mode : mode <= 2 -> dpda_validate_raw m mode = dpda_validate m.
+Proof.
+  intro Hm. unfold dpda_validate_raw, dpda_validate. rewrite <- first_err_map.
+  unfold dpda_checks, pda_tail_checks. rewrite map_app, map_flat_map. simpl.
+  assert (E : Nat.leb mode 2 = true) by (apply Nat.leb_le; exact Hm).
+  unfold to_res at 2 3 4 5. simpl. rewrite E. simpl.
+  change [guard (memb (p_init m) (p_states m)) (Invalid 1);
+          guard (memb (p_init_stack m) (p_stack_syms m)) (Invalid 2);
+          guard (subsetb (p_finals m) (p_states m)) (Invalid 1); Ok tt]
+    with ([guard (memb (p_init m) (p_states m)) (Invalid 1);
+           guard (memb (p_init_stack m) (p_stack_syms m)) (Invalid 2);
+           guard (subsetb (p_finals m) (p_states m)) (Invalid 1)] ++ [Ok tt]).
+  rewrite app_assoc, first_err_app_ok. f_equal. f_equal.
+  apply flat_map_ext. intros [q row]. simpl. unfold dpda_row_checks, dpda_validate_row.
+  rewrite map_flat_map. apply flat_map_ext. intros [a tops]. simpl. f_equal.
+  rewrite map_flat_map. apply flat_map_ext. intro Z. reflexivity.
+Qed.
